@@ -372,7 +372,10 @@ def build_funcs(case):
         if shape == 'recursion' and name == 'f1':
             body = [('if', [(('call', 'cc', []), [('return', ('bin', '+', ('str', 'rec:'), ('call', 'f1', [('var', 'pa')])))])], None)] + body
         defs.append(('func', name, ['pa'], False, body))
-    main = [('assign', 'rr', ('call', 'f1', [('str', 'x')])), ('expr', ('call', 'systemLog', [('bin', '+', ('str', 'rr='), ('var', 'rr'))]))]
+    # a global named like the parameter, and a call that omits the argument: the parameter is null inside the call
+    main = [('assign', 'pa', ('str', 'gpa')),
+            ('assign', 'rr', ('call', 'f1', [('str', 'x')])), ('expr', ('call', 'systemLog', [('bin', '+', ('str', 'rr='), ('var', 'rr'))])),
+            ('assign', 'r0', ('call', 'f3', [])), ('expr', ('call', 'systemLog', [('bin', '+', ('str', 'r0='), ('var', 'r0'))]))]
     if shape == 'recursion':
         main += [('assign', 'r2', ('call', 'f2', [('num', 2)])), ('assign', 'r3', ('call', 'f3', [('num', 3)]))]
     if place == 'top':
@@ -408,17 +411,33 @@ def fam_funcs(arg):
     return acc.result()
 
 
+def check_branch_end(case, acc):
+    return check_program(chains.build_branch_end(case['spec']), case, acc, case['bound'])
+
+
+def fam_branch_end(arg):
+    acc = Acc('branch_end')
+    for case in arg:
+        acc.cases += 1
+        check_branch_end(case, acc)
+    if arg:
+        acc.sample(dict(arg[len(arg) // 2], source=ast.source(chains.build_branch_end(arg[len(arg) // 2]['spec']))))
+    return acc.result()
+
+
 def families(tier):
     load_impl()
     from ..engine.shard import split  # pylint: disable=import-outside-toplevel
+    be = [{'spec': sp, 'bound': 2 if tier == 'quick' else 3} for sp in chains.branch_end_specs()]
     sc = sibling_cases(tier)
     fc = func_cases(tier)
     return [chain_family(tier), small_family(tier), truth_family(tier),
+            Family('branch_end', fam_branch_end, split(be, 48), 'an if chain inside a loop where every branch independently ends in nothing / break / continue / return; 3 loop kinds x 4 chain shapes x endings x 2 scopes x 3 surroundings', expected=len(be)),
             Family('siblings', fam_siblings, split(sc, 64), 'ordered pairs (thorough: all pairs and depth-1 triples) of depth <= 2 chain bodies side by side in one block, at global scope, inside a function, inside a loop; deviation bound 2', expected=len(sc)),
             Family('funcs', fam_funcs, split(fc, 48), 'three functions: 5 body kinds each x call graph {chain, diamond, bounded recursion} x definition site {top level, inside an if block, inside a loop body}', expected=len(fc))]
 
 
-_CHECKS = {'chain': check_chain, 'small': check_small, 'truth': check_truth, 'siblings': check_siblings, 'funcs': check_funcs}
+_CHECKS = {'chain': check_chain, 'small': check_small, 'truth': check_truth, 'siblings': check_siblings, 'funcs': check_funcs, 'branch_end': check_branch_end}
 
 
 def replay(family, case):
